@@ -31,9 +31,9 @@ DRIFT_PARAM = {
     "HDDDM": None, "CDBD": None,   # handled per statistic below
 }
 WARN_PARAM = {   # (parameter, menu from strict warning to loose warning)
-    "DDM": ("warning_scale", [3.0, 2.0, 1.0, 0.5]),
-    "EDDM": ("warning_thresh", [0.8, 0.9, 0.95, 0.99]),
-    "STEPD": ("alpha_warning", [0.01, 0.05, 0.2, 0.5]),
+    "DDM": ("warning_scale", [3.0, 2.0, 1.0, 0.5, 0.0]),          # 0 is the loosest legal warning setting
+    "EDDM": ("warning_thresh", [0.0, 0.8, 0.9, 0.95, 0.99, 1.0]),
+    "STEPD": ("alpha_warning", [0.0, 0.01, 0.05, 0.2, 0.5, 1.0]),
     "LinearFourRates": ("warning_level", [0.01, 0.05, 0.2, 0.5, 0.8, 0.98]),
 }
 
